@@ -9,7 +9,9 @@ package abci
 //     delivers another),
 //   - a validator that executed one or two proposals for the height before the
 //     decided one is delivered (a second consensus round),
-//   - a replica that only replays (BeginBlock / DeliverTx / EndBlock / Commit).
+//   - a replica that only replays (BeginBlock / DeliverTx / EndBlock / Commit),
+//   - a replica that is restarted after every block: all in-memory multiplexer
+//     state is dropped and rebuilt from the latest root in its node database.
 // The replicas differ in node-local configuration (minimum gas price, own key).
 //
 // Real code: abciMux.InitChain / PrepareProposal / ProcessProposal /
@@ -218,10 +220,27 @@ type vC01Replica struct {
 }
 
 func vC01NewReplica(id byte) *vC01Replica {
-	d := newVMemDB()
 	var root storage.Root
 	root.Type = storage.RootTypeState
 	root.Hash.Empty()
+	return vC01OpenReplica(id, newVMemDB(), root)
+}
+
+// restart: the node process ends and a new one opens the same node database - every in-memory object of the
+// multiplexer (proposal state, init state, cached parameters, trees) is rebuilt from the latest stored root,
+// as newApplicationState / InitStateStorage do.
+func (r *vC01Replica) restart(id byte) *vC01Replica {
+	d := r.mux.state.storage.(*vC01Backend).db
+	latest, _ := d.GetLatestVersion()
+	roots, err := d.GetRootsForVersion(latest)
+	symx.Assert(err == nil && len(roots) == 1, "node database does not hold exactly one root for the latest version")
+	root := storage.Root{Version: latest, Type: storage.RootTypeState, Hash: roots[0].Hash}
+	n := vC01OpenReplica(id, d, root)
+	symx.Assert(n.mux.state.doCommitOrInitChainLocked() == nil, "reloading consensus parameters after restart failed")
+	return n
+}
+
+func vC01OpenReplica(id byte, d *vMemDB, root storage.Root) *vC01Replica {
 	signer := vC01NewSigner(id)
 	s := &applicationState{
 		logger:          logging.GetLogger("abci-mux/state"),
@@ -341,8 +360,8 @@ func VerifC01Mux() {
 	defer signature.UnsafeResetChainContext()
 	heights := symx.Cfg("heights", 2)
 	user := vC01NewSigner(9)
-	a, b, v, r := vC01NewReplica(1), vC01NewReplica(2), vC01NewReplica(3), vC01NewReplica(4)
-	all := []*vC01Replica{a, b, v, r}
+	a, b, v, r, rs := vC01NewReplica(1), vC01NewReplica(2), vC01NewReplica(3), vC01NewReplica(4), vC01NewReplica(5)
+	all := []*vC01Replica{a, b, v, r, rs}
 	var genesisHash []byte
 	for i, n := range all {
 		h := n.initChain()
@@ -390,6 +409,11 @@ func VerifC01Mux() {
 				continue
 			}
 			symx.Assert(vC01SameResult(ref, res), "replicas executing the same block through different paths computed different results")
+		}
+		// the fifth replica is restarted after every block (cfg restart=0 switches that off)
+		if symx.Cfg("restart", 1) == 1 {
+			all[4] = all[4].restart(5)
+			symx.Cover("restarted")
 		}
 	}
 	symx.Cover("end")
